@@ -234,6 +234,7 @@ class Scheduler:
         self.parked = {}             # tid -> (code, lineno) where a thread is parked by pre-emption
         self.pairs = set()           # (parked func:line, running shared func)
         self.park_log = set()        # shared-state sites at which a thread was pre-empted
+        self.probe_funcs = set(spec.get('probe_funcs') or ())
         self.site_hits = {}
         self._keycache = {}
         # explicit replay state
@@ -366,7 +367,7 @@ class Scheduler:
         if nxt is not None and nxt is not t:
             self.switches += 1
             self.parked[t.tid] = (co.co_name, frame.f_lineno, is_shared)
-            if is_shared:
+            if is_shared or co.co_name in self.probe_funcs:
                 self.park_log.add('%s:%d' % (co.co_name, frame.f_lineno))
             self._switch(t, nxt)
             self.parked.pop(t.tid, None)
